@@ -101,6 +101,16 @@ def sumMin1 (xs : List Fl) : Fl := if (valid xs).isEmpty then nan else nansum xs
 
 def integrateSq (thr : List Rat) (ys : List Fl) : Fl := sumMin1 (pieces thr ys)
 
+/-- pieces multiplied by `piece_weight` (aligned with `ys`; the factor of the piece `x[i-1] ≤ t ≤ x[i]`
+    is the entry at `x[i]`) -/
+def piecesW : List Rat → List Fl → List Fl → List Fl
+  | x0 :: x1 :: xs, y0 :: y1 :: ys, _ :: p1 :: ps =>
+      Fl.mul (piece (fin (x1 - x0)) y0 y1) p1 :: piecesW (x1 :: xs) (y1 :: ys) (p1 :: ps)
+  | _, _, _ => []
+
+/-- `integrate_square_piecewise_linear(function_values, dim, piece_weight=pw)` on one row -/
+def integrateSqW (thr : List Rat) (ys pw : List Fl) : Fl := sumMin1 (piecesW thr ys pw)
+
 /-! ## fill_cdf / add_thresholds -/
 
 def ffillFrom : Fl → List Fl → List Fl
